@@ -112,6 +112,25 @@ impl PutQuery {
         }
     }
 
+    /// (stored_at, [(count, code)], number of requests sent)
+    #[cfg(mainline_verif)]
+    pub fn verif_view(&self) -> (u64, Vec<(u64, i32)>, usize) {
+        (
+            self.stored_at as u64,
+            self.errors
+                .iter()
+                .map(|(c, e)| (*c as u64, e.code))
+                .collect(),
+            self.inflight_requests.len(),
+        )
+    }
+
+    /// The transaction ids of the requests this query sent.
+    #[cfg(mainline_verif)]
+    pub fn verif_tids(&self) -> Vec<u32> {
+        self.inflight_requests.clone()
+    }
+
     /// Check if the query is either successfully done, or terminated with an error.
     pub fn check(&self, socket: &KrpcSocket) -> Result<bool, PutError> {
         // And all queries got responses or timedout
